@@ -280,6 +280,13 @@ def build_ops():
                                                         lambda: datetime.datetime(2020, 1, 1, 12, 0, 0, 500000, tzinfo=UTC))))
     ops.append(("type:DateTime.unconvert:est", op_type("DateTime", ((), {}), "unconvert",
                                                         lambda: datetime.datetime(2020, 1, 1, 12, 0, 0, tzinfo=est))))
+    # one instant in several zones: what is written must depend on the value alone, not on what was written before
+    ist = datetime.timezone(datetime.timedelta(hours=5, minutes=30), "IST")
+    for nm, tz in (("utc", UTC), ("est", est), ("ist", ist)):
+        ops.append((f"type:DateTime.unconvert:same-instant:{nm}", op_type("DateTime", ((), {}), "unconvert",
+                    lambda tz=tz: datetime.datetime(2023, 3, 1, 17, 0, 0, tzinfo=UTC).astimezone(tz))))
+        ops.append((f"type:Time.unconvert:same-instant:{nm}", op_type("Time", ((), {}), "unconvert",
+                    lambda tz=tz: datetime.datetime(2023, 3, 1, 17, 0, 0, tzinfo=UTC).astimezone(tz).timetz())))
     ops.append(("type:DateTime.unconvert:naive", op_type("DateTime", ((), {}), "unconvert",
                                                           lambda: datetime.datetime(2020, 1, 1, 12, 0, 0))))
     ops.append(("type:DateTime.convert:dt", op_type("DateTime", ((), {}), "convert",
